@@ -196,11 +196,35 @@ def audit_axioms(pid: str, modules: List[str], theorems: List[str]) -> Dict[str,
     return res
 
 
+PRIVATE_EXE: Dict[str, Path] = {}
+
+
+def privatise_driver(name: str) -> None:
+    """Called under the build lock right after the driver was built: this process keeps its own copy of the
+    executable, so that a concurrent check of the same property against another source tree (VERIF_REPO), which
+    regenerates Generated/*.lean and relinks drv_<name>, cannot swap the model under a running check."""
+    import atexit
+    import shutil
+    src = LEAN / '.lake' / 'build' / 'bin' / f'drv_{name}'
+    if not src.exists():
+        return
+    d = VERIF / '.locks' / 'drv'
+    d.mkdir(parents=True, exist_ok=True)
+    for old in d.glob('drv_*.*'):          # copies left behind by killed runs
+        pid = old.suffix[1:]
+        if pid.isdigit() and not Path(f'/proc/{pid}').exists():
+            old.unlink(missing_ok=True)
+    dst = d / f'drv_{name}.{os.getpid()}'
+    shutil.copy2(src, dst)
+    PRIVATE_EXE[name] = dst
+    atexit.register(lambda: dst.unlink(missing_ok=True))
+
+
 class Driver:
     """Batch interface to a compiled Lean driver executable."""
 
     def __init__(self, name: str):
-        self.exe = LEAN / '.lake' / 'build' / 'bin' / f'drv_{name}'
+        self.exe = PRIVATE_EXE.get(name) or LEAN / '.lake' / 'build' / 'bin' / f'drv_{name}'
 
     def batch(self, pairs: List[Tuple[Any, Any]]) -> List[Dict[str, Any]]:
         if not pairs:
